@@ -1,2 +1,58 @@
-(* Props/C02.v — under construction *)
-From RG Require Import Base.Bytes.
+(* Props/C02.v — property C02: results do not depend on how the input bytes reach the searcher.
+   Statements only.
+   PROVED here: the roll buffer (LineBuffer::fill/roll/ensure_capacity/consume) is a faithful
+   window of the stream for EVERY read history, capacity >= 0 and growth policy: nothing is lost,
+   duplicated or reordered; the searchable part ends right after a line terminator unless the
+   stream is exhausted; the loop never runs out of fuel; and the strategy selection lemma.
+   NOT YET PROVED (tested on every run by model = code and reader = slice on generated cases,
+   tools/props/C02.py): ReadByLine::run = SliceByLine::run on the event level (the simulation
+   between Core::roll's re-basing and the slice run). *)
+From RG Require Import Base.Bytes Model.Lines Model.SearcherCore Model.Glue Model.ReadByLine
+  Proofs.LineBufferProofs.
+
+(* 1. one LineBuffer::fill, from any well-formed state, for any reader history and policy:
+      the buffer remains the window of the stream that starts at absolute_byte_offset - pos, the
+      reader holds exactly what follows, the old content is kept in front, and the searchable end
+      (last_lineterm) is right after a terminator byte with no terminator after it — or the stream
+      is exhausted and everything is searchable. *)
+Theorem line_buffer_fill_is_stream_window :
+  forall (S : bytes) (ltb : byte) (pol : alloc_policy) (lb : linebuf) (r : reader),
+    lb_wf S lb r ->
+    match lb_fill ltb pol lb r with
+    | FillOk d lb' r' => fill_post S ltb (lb_roll lb) d lb' r' /\ lb_abs lb' = lb_abs lb /\ lb_pos lb' = 0
+    | FillFuel => False
+    | FillIoErr | FillAllocErr => True
+    end.
+Proof. exact lb_fill_spec. Qed.
+Print Assumptions line_buffer_fill_is_stream_window.
+
+(* 2. the initial buffer is well-formed, consuming searchable bytes keeps it well-formed *)
+Theorem line_buffer_init_wf :
+  forall (S : bytes) (cap : nat) (hist : list read_step), lb_wf S (lb_new cap) {| r_rest := S; r_hist := hist |}.
+Proof. exact wf_init. Qed.
+Print Assumptions line_buffer_init_wf.
+
+Theorem line_buffer_consume_wf :
+  forall (S : bytes) (lb : linebuf) (r : reader) (amt : nat),
+    lb_wf S lb r -> amt <= lb_llt lb - lb_pos lb -> lb_wf S (lb_consume lb amt) r.
+Proof. exact consume_wf. Qed.
+Print Assumptions line_buffer_consume_wf.
+
+(* 3. requesting multi-line mode for a matcher that cannot match the terminator changes nothing:
+      the line-oriented strategy is used *)
+Theorem multiline_flag_irrelevant :
+  forall (cfg : config) (M : matcher) (r : nat -> reply) (s : bytes),
+    m_nonmatching M (lt_byte (c_lt cfg)) = true ->
+    search_slice cfg M r s = slice_by_line_run cfg M r s.
+Proof.
+  intros cfg M r s H. unfold search_slice, multi_line_with_matcher. rewrite H. now rewrite andb_false_r.
+Qed.
+Print Assumptions multiline_flag_irrelevant.
+
+(* non-vacuity: 1-byte capacity, 1-byte reads, a two-line stream *)
+Example fill_example :
+  match lb_fill 10%N AEager (lb_new 1) {| r_rest := [97; 10; 98; 10]%N; r_hist := [RChunk 1; RChunk 1; RChunk 1] |} with
+  | FillOk d lb' r' => d = true /\ lb_buffer lb' = [97; 10]%N /\ r_rest r' = [98; 10]%N
+  | _ => False
+  end.
+Proof. vm_compute. auto. Qed.
